@@ -1,6 +1,7 @@
 import Driver.Value
 import APModel.Model.DeepEnv
 import APModel.Theory.Deep
+import APModel.Theory.DeepGob
 open Lean APModel APModel.Codec APModel.Deep
 
 namespace Driver
@@ -40,4 +41,15 @@ partial def parseJ (j : Json) : R J := do
 def opDeepRead (j : Json) : R Json := do
   return renderItem (normG (readTop envJson (← parseJ (← fld j "j"))))
 
+end Driver
+
+namespace Driver
+open APModel.DeepGob in
+def opDeepGobRoundTrip (j : Json) : R Json := do
+  return renderItem (normG (APModel.DeepGob.roundTrip envGob (← parseItem (← fld j "v"))))
+end Driver
+
+namespace Driver
+def opDeepGobWF (j : Json) : R Json := do
+  return Json.bool (APModel.DeepGob.wfItem APModel.DeepGob.envGob (← parseItem (← fld j "v")))
 end Driver
